@@ -63,6 +63,13 @@ def bins? (s : String) : Option (List Nat) :=
   | ["all", m] => m.toNat?.map List.range
   | _ => parseNats? s
 
+/-- a noise bound: literal bits, or `L:<sf>` / `H:<sf>` = `-sqrt(3)*sf` / `sqrt(3)*sf` computed by the model -/
+def bound? (s : String) : Option Float :=
+  match s.splitOn ":" with
+  | ["L", v] => (pf? v).map bbnLow
+  | ["H", v] => (pf? v).map bbnHigh
+  | _ => pf? s
+
 def setCal (st : St) (c : Cal Float) : St × String := ({ st with cal := some c }, "ok")
 
 def withCal (st : St) (f : Cal Float → String) : St × String :=
@@ -296,8 +303,8 @@ def step (st : St) (ws : List String) : St × String :=
     opt st <| do
       let polIn ← pf? polIn
       let polOut ← pf? polOut
-      let low ← pf? low
-      let high ← pf? high
+      let low ← bound? low
+      let high ← bound? high
       let b0 ← pf? b0
       let bt ← pfs? bt
       let atl ← pfs? atl
